@@ -354,4 +354,156 @@ theorem i2c_roundtrip_v1_aux (e : I2CElems) (hv : e.version = 1) (img : List UIn
   have : a / 2 ^ 32 * 2 ^ 32 + a % 2 ^ 32 = a := by omega
   rw [this]
   simp
+theorem byteSum_cons (a : UInt8) (l : List UInt8) : byteSum (a :: l) = a.toNat + byteSum l := by
+  simp [byteSum]
+
+theorem getD_set_ne (l : List UInt8) (i j : Nat) (b : UInt8) (h : i ≠ j) : (l.set i b).getD j 0 = l.getD j 0 := by
+  simp [List.getD_eq_getElem?_getD, List.getElem?_set_ne h]
+
+theorem getD_set_eq (l : List UInt8) (i : Nat) (b : UInt8) (h : i < l.length) : (l.set i b).getD i 0 = b := by
+  simp [List.getD_eq_getElem?_getD, h]
+
+theorem take_set_of_le (l : List UInt8) (i n : Nat) (b : UInt8) (h : n ≤ i) : (l.set i b).take n = l.take n := by
+  exact List.take_set_of_le h
+
+theorem byteSum_take_set : ∀ (l : List UInt8) (i n : Nat) (b : UInt8), i < n → i < l.length →
+    byteSum ((l.set i b).take n) + (l.getD i 0).toNat = byteSum (l.take n) + b.toNat
+  | [], _, _, _, _, h => by simp at h
+  | a :: l, 0, n + 1, b, _, _ => by
+    simp only [List.set_cons_zero, List.take_succ_cons, byteSum_cons, List.getD_cons_zero]; omega
+  | a :: l, i + 1, n + 1, b, h1, h2 => by
+    have := byteSum_take_set l i n b (by omega) (by simpa using h2)
+    simp only [List.set_cons_succ, List.take_succ_cons, byteSum_cons, List.getD_cons_succ]; omega
+
+theorem take_set_ne (l : List UInt8) (i n : Nat) (b : UInt8) (h1 : i < n) (h2 : i < l.length) (hb : b ≠ l.getD i 0) :
+    (l.set i b).take n ≠ l.take n := by
+  intro h
+  have h3 := congrArg (fun x => x.getD i 0) h
+  simp only [getD_take _ _ _ h1, getD_set_eq _ _ _ h2] at h3
+  exact hb h3
+
+/-- validity as the spec decoder sees it, spelled out -/
+theorem i2cDecode_valid (m : Mem) : (i2cDecode m).valid = true ↔
+    m.take 4 = [0x30, 0x78, 0x42, 0x43] ∧
+      ((m.getD 4 0 = 0 ∧ byteSum (m.take 15) % 256 = (m.getD 15 0).toNat) ∨
+       (m.getD 4 0 = 1 ∧ byteSum (m.take 20) % 256 = (m.getD 20 0).toNat)) := by
+  unfold i2cDecode
+  by_cases ht : m.take 4 = [0x30, 0x78, 0x42, 0x43]
+  · rw [if_pos ht]
+    by_cases h0 : m.getD 4 0 = 0
+    · rw [if_pos h0]
+      have h01 : ¬ ((0 : UInt8) = 1) := by decide
+      simp only [h0, ht, h01, beq_iff_eq, true_and, false_and, or_false]
+    · rw [if_neg h0]
+      by_cases h1 : m.getD 4 0 = 1
+      · rw [if_pos h1]
+        have h10 : ¬ ((1 : UInt8) = 0) := by decide
+        simp only [h1, ht, h10, beq_iff_eq, true_and, false_and, false_or]
+      · rw [if_neg h1]
+        constructor
+        · intro h; cases h
+        · rintro ⟨_, ⟨h, _⟩ | ⟨h, _⟩⟩
+          · exact absurd h h0
+          · exact absurd h h1
+  · rw [if_neg ht]
+    constructor
+    · intro h; cases h
+    · intro h; exact absurd h.1 ht
+
+theorem i2c_corruption_aux (m : Mem) (i : Nat) (b : UInt8) (hv : (i2cDecode m).valid = true)
+    (hi : i ≠ 4) (hlen : i < m.length)
+    (hrange : (m.getD 4 0 = 0 → i < 16) ∧ (m.getD 4 0 = 1 → i < 21)) (hb : b ≠ m.getD i 0) :
+    (i2cDecode (m.set i b)).valid = false := by
+  rw [Bool.eq_false_iff]
+  intro hv'
+  rw [i2cDecode_valid] at hv hv'
+  obtain ⟨ht, hc⟩ := hv
+  obtain ⟨ht', hc'⟩ := hv'
+  have hlt : 4 ≤ i := by
+    by_cases h : i < 4
+    · exact absurd (ht'.trans ht.symm) (take_set_ne m i 4 b h hlen hb)
+    · omega
+  rw [getD_set_ne _ _ _ _ hi] at hc'
+  have hbn : b.toNat ≠ (m.getD i 0).toNat := fun h => hb (UInt8.toNat_inj.mp h)
+  have hb1 := b.toNat_lt
+  have hb2 := (m.getD i 0).toNat_lt
+  rcases hc with ⟨h0, hs⟩ | ⟨h1, hs⟩
+  · have hi16 := hrange.1 h0
+    rcases hc' with ⟨_, hs'⟩ | ⟨h1', _⟩
+    · by_cases h15 : i = 15
+      · subst h15
+        rw [take_set_of_le _ _ _ _ (by omega), getD_set_eq _ _ _ hlen] at hs'
+        omega
+      · have := byteSum_take_set m i 15 b (by omega) hlen
+        rw [getD_set_ne _ _ _ _ h15] at hs'
+        omega
+    · rw [h0] at h1'; exact absurd h1' (by decide)
+  · have hi21 := hrange.2 h1
+    rcases hc' with ⟨h0', _⟩ | ⟨_, hs'⟩
+    · rw [h1] at h0'; exact absurd h0' (by decide)
+    · by_cases h20 : i = 20
+      · subst h20
+        rw [take_set_of_le _ _ _ _ (by omega), getD_set_eq _ _ _ hlen] at hs'
+        omega
+      · have := byteSum_take_set m i 20 b (by omega) hlen
+        rw [getD_set_ne _ _ _ _ h20] at hs'
+        omega
+theorem packB_total {v : Int} (h0 : 0 ≤ v) (h1 : v < 256) : packOne .B (.int v) = .ok [UInt8.ofNat v.toNat] := by
+  obtain ⟨n, rfl⟩ := Int.eq_ofNat_of_zero_le h0
+  have hn : n < 256 := by omega
+  have : n % 256 = n := Nat.mod_eq_of_lt hn
+  simp [packOne, packUnsigned, hn, leBytes, this]
+
+theorem packf_total {v : Nat} (h : v < 2 ^ 32) : packOne .f (.flt v) = .ok (leBytes 4 v) := by
+  have : v < 256 ^ 4 := by simpa using h
+  simp [packOne, packFlt, this]
+
+theorem packI_total {n : Nat} (h : n < 2 ^ 32) : packOne .I (.int (n : Int)) = .ok (leBytes 4 n) := by
+  have : n < 256 ^ 4 := by simpa using h
+  simp only [packOne]
+  show packUnsigned 4 (Int.ofNat n) = _
+  simp [packUnsigned, this]
+
+theorem pack_cons_total {c : Code} {cs : Fmt} {v : Val} {vs : List Val} {a r : List UInt8} (hx : c ≠ .x)
+    (h1 : packOne c v = .ok a) (h2 : pack cs vs = .ok r) : pack (c :: cs) (v :: vs) = .ok (a ++ r) := by
+  have hp : pack (c :: cs) (v :: vs) = (do let a ← packOne c v; let r ← pack cs vs; pure (a ++ r)) := by
+    cases c <;> first | exact absurd rfl hx | rfl
+  rw [hp, h1, h2]; rfl
+
+theorem i2c_image_total_aux (e : I2CElems) (hv : e.version = 0 ∨ e.version = 1)
+    (hc : 0 ≤ e.channel ∧ e.channel < 256) (hs : 0 ≤ e.speed ∧ e.speed < 256) (hp : e.pitch < 2 ^ 32) (hr : e.roll < 2 ^ 32)
+    (ha : e.version = 1 → ∃ a : Nat, e.address = some (a : Int) ∧ a < 2 ^ 40) :
+    ∃ img, i2cImage e = .ok img ∧ img.length = (if e.version = 0 then 16 else 21) := by
+  have hck : ∀ n : Nat, n < 256 → pack [.B] [.int (n : Int)] = .ok [UInt8.ofNat n] := by
+    intro n hn
+    have := pack_cons_total (cs := []) (vs := []) (by decide)
+      (packB_total (v := (n : Int)) (by omega) (by omega)) rfl
+    simpa using this
+  have hmod : ∀ l : List UInt8, byteSum l % 256 < 256 := fun l => Nat.mod_lt _ (by decide)
+  rcases hv with hv | hv
+  · have hb := pack_cons_total (by decide) (packB_total (v := 0) (by decide) (by decide))
+      (pack_cons_total (by decide) (packB_total hc.1 hc.2)
+        (pack_cons_total (by decide) (packB_total hs.1 hs.2)
+          (pack_cons_total (by decide) (packf_total hp)
+            (pack_cons_total (cs := []) (vs := []) (by decide) (packf_total hr) rfl))))
+    unfold i2cImage
+    simp only [hv, if_true, fmt_i2cW0, fmt_i2cWck, hb, bind, Except.bind, checksum256, gen_mod, hck _ (hmod _), pure, Except.pure]
+    exact ⟨_, rfl, by simp [gen_token]⟩
+  · obtain ⟨a, hadr, ha⟩ := ha hv
+    have h10 : ¬ ((1 : Int) = 0) := by decide
+    have hhi : Gen.C14.i2cAddrHi a < 256 := by rw [i2cAddrHi_eq]; omega
+    have hlo : Gen.C14.i2cAddrLo a < 2 ^ 32 := by rw [i2cAddrLo_eq]; exact Nat.mod_lt _ (by decide)
+    have hb := pack_cons_total (by decide) (packB_total (v := 1) (by decide) (by decide))
+      (pack_cons_total (by decide) (packB_total hc.1 hc.2)
+        (pack_cons_total (by decide) (packB_total hs.1 hs.2)
+          (pack_cons_total (by decide) (packf_total hp)
+            (pack_cons_total (by decide) (packf_total hr)
+              (pack_cons_total (by decide) (packB_total (v := (Gen.C14.i2cAddrHi a : Nat)) (by omega) (by omega))
+                (pack_cons_total (cs := []) (vs := []) (by decide) (packI_total hlo) rfl))))))
+    have hadr' : e.address = some (Int.ofNat a) := hadr
+    unfold i2cImage
+    simp only [hv, h10, if_true, if_false, hadr', fmt_i2cW1, fmt_i2cWck, bind, Except.bind, checksum256, gen_mod, pure, Except.pure]
+    rw [hb]
+    simp only [hck _ (hmod _)]
+    exact ⟨_, rfl, by simp [gen_token]⟩
 end CfVerif.C14
